@@ -55,7 +55,7 @@ class CacheWorld:
     INITIAL = [
         ["readme.txt", "f", "readme\n"], ["zeta.c", "f", "int z;\n"], ["page.html", "f", "<html><title>Page Title</title></html>\n"],
         ["a/one.txt", "f", "1\n"], ["a/two.gif", "f", "GIF89a"], ["a/c/deep.txt", "f", "deep\n"], ["a/c/x.pdf", "f", "%PDF"],
-        ["b/only.txt", "f", "only\n"], ["a/c/.abstract", "f", "about c\n"],
+        ["b/only.txt", "f", "only\n"], ["a/c/.abstract", "f", "about c\n"], ["a/empty.txt", "f", ""], ["nil.dat", "f", ""],
     ]
 
     def __init__(self, lifetime, ctx=None):
@@ -115,7 +115,10 @@ class CacheWorld:
                 if step["numb"]:
                     text += "Numb=%d\n" % step["numb"]
                 text += "\n"
-            if step["newlink"]:
+            if step["newlink"] == "remote0":
+                # entry attributes that are set but falsy (port 0) must come back from the cache as they went in
+                text += "Name=%s\nType=1\nPath=/x\nHost=far.example\nPort=0\n" % (step["title"] + " far")
+            elif step["newlink"]:
                 text += "Name=%s\nType=1\nPath=/b\nHost=+\nPort=+\n" % (step["title"] + " link")
             with open(os.path.join(p, ".names"), "w") as f:
                 f.write(text)
@@ -242,9 +245,9 @@ class CacheMachine(RuleBasedStateMachine):
             _current["failed"] = (list(self.w.steps), fails)
             raise AssertionError(fails[0].sig)
 
-    @rule(d=st.sampled_from(DIRS), name=name_st)
-    def create(self, d, name):
-        self._do({"op": "create", "dir": d, "name": name})
+    @rule(d=st.sampled_from(DIRS), name=name_st, content=st.sampled_from(["new\n", "new\n", "", "x" * 2000]))
+    def create(self, d, name, content):
+        self._do({"op": "create", "dir": d, "name": name, "content": content})
 
     @rule(d=st.sampled_from(DIRS), idx=st.integers(0, 5))
     def delete(self, d, idx):
@@ -254,7 +257,7 @@ class CacheMachine(RuleBasedStateMachine):
     def rename(self, d, idx, name):
         self._do({"op": "rename", "dir": d, "idx": idx, "name": name})
 
-    @rule(d=st.sampled_from(DIRS), idx=st.integers(0, 5), title=title_st, override=st.booleans(), newlink=st.booleans(),
+    @rule(d=st.sampled_from(DIRS), idx=st.integers(0, 5), title=title_st, override=st.booleans(), newlink=st.sampled_from([False, True, True, "remote0"]),
           numb=st.sampled_from([0, 0, 1, 2, -1]))
     def names(self, d, idx, title, override, newlink, numb):
         self._do({"op": "names", "dir": d, "idx": idx, "title": title, "override": override, "newlink": newlink, "numb": numb})
